@@ -335,7 +335,7 @@ theorem reconcile_dls (s : St) (impl : List ImplDl) (he : (reconcile s impl).2 =
 theorem reconcile_winv (s : St) (impl : List ImplDl) (h : WInv s) (he : (reconcile s impl).2 = []) :
     WInv (reconcile s impl).1 := by
   have hd := reconcile_dls s impl he
-  refine ⟨by simpa using h.cfgOK, ?_, by simpa using h.wf, by simpa using h.wb, by simpa using h.wg,
+  refine ⟨?_, by simpa using h.wf, by simpa using h.wg,
     by simpa using h.wc, by simpa [St.n] using h.wl, by simpa using h.wd, by simpa using h.bd, ?_, ?_,
     by simpa using h.al, by simpa using h.id⟩
   · -- peers: only `snubbed` is reset
@@ -365,7 +365,7 @@ theorem reconcile_winv (s : St) (impl : List ImplDl) (h : WInv s) (he : (reconci
 
 theorem reconcileIdl_winv (s : St) (impl : List Nat) (h : WInv s) (he : (reconcileIdl s impl).2 = []) :
     WInv (reconcileIdl s impl).1 := by
-  refine ⟨by simpa using h.cfgOK, h.q.of_peers (by simp), by simpa using h.wf, by simpa using h.wb,
+  refine ⟨h.q.of_peers (by simp), by simpa using h.wf,
     by simpa using h.wg, by simpa using h.wc, by simpa [St.n] using h.wl, by simpa using h.wd, by simpa using h.bd,
     by simpa using h.dd, by simpa using h.dl, by simpa using h.al, ?_⟩
   intro hi
@@ -396,7 +396,10 @@ theorem drun_full (evs : List Ev) (sp : St × Parked) (h : Full sp.1) (ha : drun
 
 /-- The invariant holds of a freshly added torrent (`InitLike`) with no write in flight and a configuration
 whose pieces with blocks have data. -/
-theorem InitLike.full {s : St} (h : InitLike s) (hc : s.cfg.blocksHaveData = true) (hw : s.writing = none) :
-    Full s := ⟨h.life, h.comp, h.winv hc hw⟩
+theorem noFuture_of_none {s : St} (h : s.writing = none) : ∀ w, s.writing = some w → w.gen ≤ s.gen :=
+  fun w hw => by rw [h] at hw; cases hw
+
+theorem InitLike.full {s : St} (h : InitLike s) (hw : ∀ w, s.writing = some w → w.gen ≤ s.gen) :
+    Full s := ⟨h.life, h.comp, h.winv hw⟩
 
 end Rain.Loop
